@@ -100,3 +100,10 @@ package api
 // an operand of at least one instruction in the packages that parse, lower, link or print.
 //@ consulted js-feature-table C14: type=compat.JSFeature ; in=js_parser,js_printer,js_lexer,js_ast,linker,bundler,api,renamer,config,runtime,resolver ; scenario.Hashbang=hashbang_unsupported_target
 //@ consulted css-feature-table C14: type=compat.CSSFeature ; in=css_parser,css_printer,css_lexer,css_ast,linker,bundler,api,config
+
+// C17 ("never overwrites or DELETES a file that was one of its inputs"; "the only files a rebuild ever deletes are files
+// that an earlier build of the same context wrote itself and that are not outputs of the current build"): a path
+// remembered from an earlier build may meanwhile be an INPUT of the current build (an in-place build with
+// allow-overwrite; a generated file the project now imports as a source). It is put on the delete list only after the
+// current bundle has been asked whether it is one of its inputs.
+//@ guarded rebuild-never-deletes-an-input C17: func=rebuildImpl ; in=api ; site=builtin append ; when-arg=0:*toDelete* ; scenario=rebuild_deletes_input ; require=false:call ContainsInputFile(*)
